@@ -16,6 +16,7 @@ structure Cfg where
   n : Nat                 -- inline capacity N
   ops : BaseOps
   checked : Bool := true  -- ExceptionGrowingPolicy (true) or UncheckedGrowingPolicy
+  allocId : Nat := 0      -- identifies the allocator *type* (`std::is_same<OAlloc, Alloc>` in canSwapDynStorage)
 
 def Cfg.dynamic (cfg : Cfg) : Bool := cfg.flavour != .fixed
 
@@ -381,5 +382,51 @@ def swapSame (cfg : Cfg) (c d : Nat) : M α Unit := do
     let (wc, wd, effs) := cfg.ops.swapImpl (← getW c) (← getW d)
     interpAll c d effs
     setW c wc; setW d wd
+
+
+/- ------------------------------------------------------------------------------------------------
+   swap2 between two vectors of possibly different flavour / N / size_type / allocator
+   (hand-written after `VectorImpl::swap2`, `adjustEachOtherCapacity`, `swap2_impl`, `canExchangeDynStorage`)
+   ------------------------------------------------------------------------------------------------ -/
+
+/-- `this->canSwapDynStorage(o)` -/
+def canSwapDyn (ca cb : Cfg) (wa wb : VB) : Bool :=
+  match ca.flavour, cb.flavour with
+  | .fixed, _ => false
+  | _, .fixed => false
+  | .std, .std => ca.allocId == cb.allocId
+  | .std, .small => ca.allocId == cb.allocId && !cb.ops.isSmall wb
+  | .small, .std => ca.allocId == cb.allocId && !ca.ops.isSmall wa
+  | .small, .small => ca.allocId == cb.allocId && !ca.ops.isSmall wa && !cb.ops.isSmall wb
+
+/-- `this->canExchangeDynStorage(o)` -/
+def canExchangeDyn (ca cb : Cfg) (wa wb : VB) : Bool :=
+  canSwapDyn ca cb wa wb && decide (cb.ops.capacity wb ≤ ca.ops.kMax) && decide (ca.ops.capacity wa ≤ cb.ops.kMax)
+
+def swap2 (ca cb : Cfg) (a b : Nat) : M α Unit := do
+  let wa ← getW a
+  let wb ← getW b
+  -- adjustEachOtherCapacity
+  if ca.dynamic then
+    if !canExchangeDyn ca cb wa wb then
+      adjustCapacity ca a (cb.ops.size wb)
+      adjustCapacity cb b (ca.ops.size wa)
+  else
+    adjustCapacity ca a (cb.ops.size wb)
+    adjustCapacity cb b (ca.ops.size wa)
+  -- swap2_impl
+  let wa ← getW a
+  let wb ← getW b
+  let sa := ca.ops.size wa
+  let sb := cb.ops.size wb
+  if ca.dynamic && cb.dynamic && canExchangeDyn ca cb wa wb then
+    let capA := ca.ops.capacity wa
+    let capB := cb.ops.capacity wb
+    setW a ⟨capB, sb, wb.dyn⟩
+    setW b ⟨capA, sa, wa.dyn⟩
+  else
+    swapDeep (← vbegin ca a) sa (← vbegin cb b) sb
+    setSize ca a sb
+    setSize cb b sa
 
 end AmcVerif
